@@ -153,13 +153,13 @@ theorem floatLitValue_neg (ds fs : Bytes) (hd : ds.all isDigit = true) :
 /-! ## one lexeme as a whole source -/
 
 theorem lexRun_semi : lexRun [59] = ([.ch 59], none) := by
-  have h := lexRun_append [59] [] .rAny (by simp) (step_plain 59 [] (by decide))
+  have h := lexRun_append [59] [] .rAny (by simp) (lexStep_plain 59 [] (by decide))
   simpa [consTok, mkTok, lexRun_nil] using h
 
 /-- a source that is exactly one lexeme: the scanner yields its token and the closing `;` -/
 theorem lexRun_single (r : Rule) (l : Bytes) (hl : Lexeme r l) :
     lexRun (l ++ [59]) = consTok (mkTok r l) ([.ch 59], none) := by
-  rw [lexRun_append l [59] r hl.ne_nil (step_lexeme r l [59] hl (fits_break r l 59 [] hl (by decide))), lexRun_semi]
+  rw [lexRun_append l [59] r hl.ne_nil (lexStep_lexeme r l [59] hl (fits_break r l 59 [] hl (by decide))), lexRun_semi]
 
 theorem parseTokens_lit (v : GoVal) : parseTokensE [.lit v, .ch 59] = some (.expr (.lit v)) := rfl
 
